@@ -15,7 +15,10 @@ import PcbV.Basic
      per trap `armed ∈ {off,on,stop}`, `pending`, `busy`, `hasHandler`; `errActive`; `run`.
   3. `Vm`: a little "event program" machine (one statement per line, handler sections, an ON ERROR
      section with RESUME NEXT, key presses injected per executed-line tick) built on `step`, so that
-     the driver can produce the marker trace of a whole scenario from one protocol line.
+     the driver can produce the marker trace of a whole scenario from one protocol line.  A scenario
+     may cross run-mode boundaries: after the program has ended (END, fatal error, end of program)
+     DIRECT-MODE statements follow (ON/OFF/STOP, ON..GOSUB, ERROR — which enters the program's ON ERROR
+     handler from direct mode —, CONT, GOTO line, CLEAR), with occurrences before each of them.
 
   A dispatch (`handle_basic_events`) iterates a Python `set`; the iteration order is not specified,
   so the `dispatch` event carries the order as data (any list; the theorems quantify over it, the
@@ -221,6 +224,10 @@ inductive Stmt where
   | resumeNext
   | end_
   | clear
+  /-- `GOTO <line with index k>` (in the program: the guard after the final END; in direct mode: re-enter the program) -/
+  | goto (k : Nat)
+  /-- `CONT` (direct mode only) -/
+  | cont
 deriving Repr
 
 structure Prog where
@@ -239,30 +246,43 @@ structure Vm where
   onErr : Bool
   /-- `error_handle_mode` -/
   inErr : Bool
-  /-- `error_resume` -/
+  /-- `error_resume`: statement position … -/
   errResume : Option Nat
+  /-- … and run mode of the failing statement (`true` = it was a direct-mode statement) -/
+  errDirect : Bool
+  /-- `stop_pos` (set by END, used by CONT) -/
+  stopPos : Option Nat
   /-- markers printed, newest first -/
   out : List String
   /-- indices of the lines executed (one per hook call), newest first -/
   lines : List Nat
+  /-- control is back at the prompt -/
   halted : Bool
 
 def Vm.init : Vm :=
   { core := (step St.init .runCmd).1, pc := 0, rstack := [], onErr := false, inErr := false,
-    errResume := none, out := [], lines := [], halted := false }
+    errResume := none, errDirect := false, stopPos := none, out := [], lines := [], halted := false }
 
 def applyEv (v : Vm) (e : Ev) : Vm := { v with core := (step v.core e).1 }
 
-/-- `trap_error` -/
+/-- `trap_error` for a statement of the running program -/
 def raise (v : Vm) : Vm :=
   if v.onErr && !v.inErr then
-    applyEv { v with errResume := some v.pc, inErr := true } .errTrap
+    applyEv { v with errResume := some v.pc, errDirect := false, inErr := true } .errTrap
   else
     applyEv { v with inErr := false, halted := true } .endProg
 
 def raiseTo (p : Prog) (v : Vm) : Vm :=
   let w := raise v
   if w.halted then w else { w with pc := p.errStart }
+
+/-- `trap_error` for a direct-mode statement: `jump(on_error)` switches to run mode, the traps are
+    suspended exactly as for an error of the running program -/
+def raiseDirect (p : Prog) (v : Vm) : Vm :=
+  if v.onErr && !v.inErr then
+    applyEv (applyEv { v with errResume := none, errDirect := true, inErr := true, pc := p.errStart,
+                              halted := false } .errTrap) .cont
+  else { v with inErr := false }
 
 def next (v : Vm) : Vm := { v with pc := v.pc + 1 }
 
@@ -283,11 +303,40 @@ def exec (p : Prog) (v : Vm) : Stmt → Vm
     | [] => raiseTo p v
     | r :: rs => { applyEv v .ret with rstack := rs, pc := r }
   | .resumeNext =>
+    if v.errDirect then
+      -- back to the direct line, whose only statement is skipped: control returns to the prompt
+      applyEv (applyEv { v with inErr := false, errResume := none, errDirect := false, halted := true }
+        .resume) .endProg
+    else
     match v.errResume with
     | none => raiseTo p { v with onErr := false }
     | some r => { applyEv v .resume with inErr := false, errResume := none, pc := r + 1 }
-  | .end_ => applyEv { v with inErr := false, errResume := none, halted := true } .endProg
-  | .clear => next (applyEv { v with onErr := false, inErr := false, errResume := none, rstack := [] } .clear)
+  | .end_ =>
+    applyEv { v with inErr := false, errResume := none, errDirect := false, stopPos := some (v.pc + 1),
+                     halted := true } .endProg
+  | .clear =>
+    next (applyEv { v with onErr := false, inErr := false, errResume := none, errDirect := false,
+                           stopPos := none, rstack := [] } .clear)
+  | .goto k => { v with pc := k }
+  | .cont => raiseTo p v   -- not generated inside programs (CONT in a program is not modelled)
+
+/-- a direct-mode statement, executed while control is at the prompt -/
+def execDirect (p : Prog) (v : Vm) : Stmt → Vm
+  | .mark m => { v with out := m :: v.out }
+  | .on i => applyEv v (.on i)
+  | .off i => applyEv v (.off i)
+  | .stop i => applyEv v (.stop i)
+  | .seth i b => applyEv v (.setHandler i b)
+  | .err => raiseDirect p v
+  | .cont =>
+    match v.stopPos with
+    | none => raiseDirect p v            -- Can't continue
+    | some q => applyEv { v with pc := q, halted := false } .cont
+  | .goto k => applyEv { v with pc := k, halted := false } .cont
+  | .clear =>
+    applyEv { v with onErr := false, inErr := false, errResume := none, errDirect := false,
+                     stopPos := none, rstack := [] } .clear
+  | _ => v
 
 /-- enter the handlers of the traps fired by one dispatch: each `jump_sub` saves the CURRENT position,
     which for the second and later ones is the start of the previously entered handler -/
@@ -295,21 +344,36 @@ def enter (p : Prog) : List Nat → Vm → Vm
   | [], v => v
   | i :: rest, v => enter p rest { v with rstack := v.pc :: v.rstack, pc := p.handler.getD i 0 }
 
-/-- one iteration of `Interpreter.parse`: check_events (deliver the occurrences injected at the
-    previous line), handle_basic_events, read the line (program end?), hook (inject), statement -/
+def deliverAll (v : Vm) (l : List Nat) : Vm := l.foldl (fun v i => applyEv v (.occur i)) v
+
+/-- one iteration of `Interpreter.parse` in run mode: check_events (deliver the occurrences put on the
+    queue since the last one), handle_basic_events, read the line (program end?), hook, statement -/
 def tick (p : Prog) (v : Vm) (deliver : List Nat) (order : List Nat) : Vm :=
-  let v1 := deliver.foldl (fun v i => applyEv v (.occur i)) v
+  let v1 := deliverAll v deliver
   let r := step v1.core (.dispatch order)
   let v2 := enter p r.2 { v1 with core := r.1 }
   match p.code[v2.pc]? with
   | none => applyEv { v2 with halted := true } .endProg
   | some s => exec p { v2 with lines := v2.pc :: v2.lines } s
 
-/-- `sched`: per tick, the traps whose event occurs in the hook of that tick (seen by the next
-    check_events) and the iteration order of the enabled set at the dispatch before that tick. -/
-def runVm (p : Prog) : List (List Nat × List Nat) → Vm → List Nat → Vm
-  | [], v, _ => v
-  | (inj, order) :: rest, v, deliver =>
-    if v.halted then v else runVm p rest (tick p v deliver order) inj
+/-- one direct-mode statement: check_events, handle_basic_events (not in run mode: nothing can be
+    entered, but the machine is asked all the same), statement -/
+def direct (p : Prog) (v : Vm) (deliver : List Nat) (order : List Nat) (s : Stmt) : Vm :=
+  let v1 := deliverAll v deliver
+  let r := step v1.core (.dispatch order)
+  execDirect p (enter p r.2 { v1 with core := r.1 }) s
+
+/-- one step of a scenario as observed: a program line (hook call) or a direct-mode statement; both
+    carry the occurrences delivered by the check_events before them and the iteration order of the
+    enabled set.  A program line while the machine is at the prompt (or a direct statement while it is
+    not) is skipped — the traces then differ from the implementation's. -/
+inductive Item where
+  | line (deliver order : List Nat)
+  | direct (deliver order : List Nat) (s : Stmt)
+
+def runVm (p : Prog) : List Item → Vm → Vm
+  | [], v => v
+  | .line d o :: rest, v => runVm p rest (if v.halted then v else tick p v d o)
+  | .direct d o s :: rest, v => runVm p rest (if v.halted then direct p v d o s else v)
 
 end PcbV.Events
